@@ -237,6 +237,52 @@ def gen_scenario(rng, focus=None, entry=None):
     return sc
 
 
+def gen_pair_L0(rng):
+    """A scenario in the SEI model with latency 0 and the same scenario in the SI
+    model (same seed): C05 demands identical trajectories."""
+    while True:
+        sc = gen_scenario(rng, focus="sei", entry="pools")
+        if sc.meta["mt"] == "SEI":
+            break
+    lines = []
+    for l in sc.lines:
+        t = l.split()
+        if t[0] == "mt":
+            l = "mt SEI 0"
+        elif t[0] == "cells":
+            cells = []
+            for tok in t[2:]:
+                p = tok.split("|")
+                p[1] = "0"
+                p[3] = "0"
+                p[7] = str(int(p[0]) + int(p[2]) + int(p[4]))
+                cells.append("|".join(p))
+            l = " ".join(t[:2] + cells)
+        elif t[0] == "movements":
+            l = "movements 0"
+        lines.append(l)
+    a = Scenario()
+    a.lines = lines[:-1] + ["pair L0_SEI", "end"]
+    a.meta = dict(sc.meta, mt="SEI", latency=0)
+    b = Scenario()
+    b.lines = []
+    for l in lines[:-1]:
+        t = l.split()
+        if t[0] == "mt":
+            l = "mt SI 0"
+        elif t[0] == "cells":
+            cells = []
+            for tok in t[2:]:
+                p = tok.split("|")
+                p[1] = ""
+                cells.append("|".join(p))
+            l = " ".join(t[:2] + cells)
+        b.lines.append(l)
+    b.lines += ["pair L0_SI", "end"]
+    b.meta = dict(sc.meta, mt="SI", latency=0)
+    return [a, b]
+
+
 FOCI = [None, "treat", "mortality", "sei", "soil", "multi", "overpop", "movement", "removal", "det"]
 
 
